@@ -16,6 +16,7 @@ import (
 	sdk "github.com/cosmos/cosmos-sdk/types"
 	"github.com/cosmos/gogoproto/proto"
 
+	gogotypes "github.com/cosmos/gogoproto/types"
 	svctypes "mods.irisnet.org/modules/service/types"
 
 	"verif/harness/mc"
@@ -359,6 +360,7 @@ func (d *Driver) Enabled(e *mc.Env, s *mc.State) []mc.Op {
 			}
 			add(fmt.Sprintf("!update-freq(%s,X)", c.Tmpl), opData{kind: "updatectx", ctx: c.ID, by: "X"})
 			add(fmt.Sprintf("update-freq(%s,%s)", c.Tmpl, tmpls[c.Tmpl].consumer), opData{kind: "updatectx", ctx: c.ID, by: tmpls[c.Tmpl].consumer})
+			add(fmt.Sprintf("update-timeout(%s,%s)", c.Tmpl, tmpls[c.Tmpl].consumer), opData{kind: "updatectx", ctx: c.ID, by: tmpls[c.Tmpl].consumer, n: int64(tmpls[c.Tmpl].freq) + 2})
 		}
 	}
 	return ops
@@ -380,14 +382,80 @@ func (d *Driver) nextDue(e *mc.Env, s *mc.State) int64 {
 
 // ---------------------------------------------------------------- apply
 
+var adoptC13 = map[string]string{
+	"C08/batch-off-schedule/":            "C13/service/due-processing/batch-off-schedule/",
+	"C08/expired-request-still-active":   "C13/service/due-processing/expired-request-still-active",
+	"C08/second-outcome":                 "C13/service/due-processing/second-outcome",
+	"C08/several-batches-in-one-block":   "C13/service/due-processing/several-batches-in-one-block",
+	"C08/one-shot-not-removed":           "C13/service/due-processing/one-shot-not-removed",
+}
+
+func (d *Driver) sel(fs []mc.Finding) []mc.Finding {
+	if d.V.Mode == "C13" {
+		return mc.Select(fs, "C13", adoptC13)
+	}
+	return mc.Select(fs, d.V.Mode, nil)
+}
+
 func (d *Driver) Apply(e *mc.Env, s *mc.State, op mc.Op) []mc.Finding {
-	var out []mc.Finding
-	for _, f := range d.apply(e, s, op) {
-		if len(f.Sig) >= 4 && f.Sig[:4] == d.V.Mode+"/" {
-			out = append(out, f)
+	return d.sel(d.apply(e, s, op))
+}
+
+// Hygiene compares the raw new-batch and batch-expiration queues (and their per-context height markers)
+// and the active-request markers with the contexts and requests: entries refer to existing contexts, entry
+// and marker agree, nothing is queued at a height whose end-block has already run, a running context always
+// has something scheduled, and no request stays active past its expiration height.
+func Hygiene(e *mc.Env, s *mc.State) []mc.Finding {
+	var fs []mc.Finding
+	h := s.Ctx.BlockHeight()
+	scheduled := map[string]int{}
+	for _, q := range []struct {
+		name   string
+		prefix byte
+		marker byte
+	}{{"new-batch", 0x10, 0x12}, {"batch-expiration", 0x09, 0x11}} {
+		markers := map[string]int64{}
+		for _, kv := range mc.DumpStore(s.Ctx, e, "service") {
+			if len(kv.K) > 1 && kv.K[0] == q.marker {
+				var v gogotypes.Int64Value
+				e.Cdc.MustUnmarshal(kv.V, &v)
+				markers[strings.ToUpper(hex.EncodeToString(kv.K[1:]))] = v.Value
+			}
+		}
+		seen := map[string]bool{}
+		for _, en := range mc.QueueEntries(s.Ctx, e, "service", q.prefix) {
+			id := strings.ToUpper(hex.EncodeToString(en.Rest))
+			seen[id] = true
+			scheduled[id]++
+			if _, found := e.Service.GetRequestContext(s.Ctx, en.Rest); !found {
+				fs = append(fs, mc.F("C13/queue/service/"+q.name+"/entry-without-context", "entry at height %d for a context that does not exist", en.Height))
+			}
+			if en.Height < h {
+				fs = append(fs, mc.F("C13/queue/service/"+q.name+"/entry-in-the-past", "entry at height %d still present in block %d (end-block of that height has run)", en.Height, h))
+			}
+			if mh, ok := markers[id]; !ok || mh != en.Height {
+				fs = append(fs, mc.F("C13/queue/service/"+q.name+"/marker-disagrees", "entry at height %d, height marker %v (present=%v)", en.Height, mh, ok))
+			}
+		}
+		for id, mh := range markers {
+			if !seen[id] {
+				fs = append(fs, mc.F("C13/queue/service/"+q.name+"/marker-without-entry", "height marker %d for context without queue entry", mh))
+			}
 		}
 	}
-	return out
+	e.Service.IterateRequestContexts(s.Ctx, func(id tmbytes.HexBytes, rc svctypes.RequestContext) bool {
+		if rc.State == svctypes.RUNNING && scheduled[strings.ToUpper(hex.EncodeToString(id))] == 0 {
+			fs = append(fs, mc.F("C13/queue/service/running-context-without-entry", "running context (repeated=%v, batch %d, batch state %s) has neither a new-batch nor a batch-expiration entry", rc.Repeated, rc.BatchCounter, rc.BatchState))
+		}
+		return false
+	})
+	e.Service.IterateRequests(s.Ctx, func(id tmbytes.HexBytes, cr svctypes.CompactRequest) bool {
+		if e.Service.IsRequestActive(s.Ctx, id) && cr.ExpirationHeight < h {
+			fs = append(fs, mc.F("C13/queue/service/active-request-past-expiry", "request expiring at %d is still active in block %d", cr.ExpirationHeight, h))
+		}
+		return false
+	})
+	return fs
 }
 
 func coinsBig(c sdk.Coins) *big.Int { return c.AmountOf(denom).BigInt() }
@@ -575,7 +643,12 @@ func (d *Driver) apply(e *mc.Env, s *mc.State, op mc.Op) []mc.Finding {
 		case "kill":
 			msg = &svctypes.MsgKillRequestContext{RequestContextId: od.ctx, Consumer: mc.Addr(od.by).String()}
 		default:
-			msg = &svctypes.MsgUpdateRequestContext{RequestContextId: od.ctx, Consumer: mc.Addr(od.by).String(), RepeatedFrequency: t.freq + 1}
+			if od.n > 0 {
+				// only the timeout is raised (above the repeat frequency); the frequency is left untouched
+				msg = &svctypes.MsgUpdateRequestContext{RequestContextId: od.ctx, Consumer: mc.Addr(od.by).String(), Timeout: od.n}
+			} else {
+				msg = &svctypes.MsgUpdateRequestContext{RequestContextId: od.ctx, Consumer: mc.Addr(od.by).String(), RepeatedFrequency: t.freq + 1}
+			}
 		}
 		out := s.Deliver(e, op.Name, msg)
 		if !out.OK {
@@ -806,13 +879,11 @@ func (d *Driver) oneBlock(e *mc.Env, s *mc.State, dt time.Duration) []mc.Finding
 }
 
 func (d *Driver) Check(e *mc.Env, s *mc.State) []mc.Finding {
-	var out []mc.Finding
-	for _, f := range d.check(e, s) {
-		if len(f.Sig) >= 4 && f.Sig[:4] == d.V.Mode+"/" {
-			out = append(out, f)
-		}
+	fs := d.check(e, s)
+	if d.V.Mode == "C13" {
+		fs = append(fs, Hygiene(e, s)...)
 	}
-	return out
+	return d.sel(fs)
 }
 
 func (d *Driver) check(e *mc.Env, s *mc.State) []mc.Finding {
@@ -868,6 +939,12 @@ func Parts(mode string) func() []mc.Part {
 			return []mc.Part{
 				mc.ExplorePart("fees", New(Variant{Name: "fees", Mode: mode, Tmpl: []string{"one", "rep", "poor"}, Withdraw: true}), 8, 10, true, rule),
 				mc.ExplorePart("deposits", New(Variant{Name: "deposits", Mode: mode, Tmpl: []string{"one"}, BindingOps: true}), 7, 9, true, rule),
+			}
+		}
+		if mode == "C13" {
+			return []mc.Part{
+				mc.ExplorePart("service-control", New(Variant{Name: "service-control", Mode: mode, Tmpl: []string{"rep", "one"}, ControlOps: true}), 6, 8, true, rule),
+				mc.ExplorePart("service-schedule", New(Variant{Name: "service-schedule", Mode: mode, Tmpl: []string{"rep", "poor", "mod"}}), 8, 11, true, rule),
 			}
 		}
 		return []mc.Part{
